@@ -26,6 +26,8 @@ structure DSt where
   ctx : Bool := false    -- the stopped context of the extension layer (`StX.ctxDone`)
   xobs : List XObs := [] -- observations of (ContextStopped, IsStopped) recorded from the implementation, newest first
   progs : List (Nat × Th) := []  -- per instance: the daemon call its handler makes once it runs (worker kind `a@order`)
+  kinds : List (Nat × String) := []  -- per instance: its worker kind
+  kicked : List Nat := []  -- instances of kind `k` asked to shut the daemon down from inside their handler
 
 def DSt.init : DSt := { seq := false, s := Hive.Daemon.init, finReq := [], evs := [], nextCall := 1000 }
 
@@ -364,6 +366,25 @@ def lastAnswer (s : St) : String :=
 def parseOrders (tok : String) : Option (List Int) :=
   if tok == "-" then some [] else (tok.splitOn ",").mapM String.toInt?
 
+/-- Everything that is due happens: nested registrations of handlers that run (`a`), handlers of kind `k` that were
+asked to shut the daemon down call `Shutdown()` from inside (the body of `stopOnce` runs on the extension layer, the
+cancelled workers return whenever it is blocked), due worker goroutines run to their end. -/
+def settle (d : DSt) : DSt :=
+  let (s1, pr1) := quiesceN d.s d.finReq d.progs
+  let d1 := { d with s := s1, progs := pr1 }
+  d1.kicked.foldl (fun d i =>
+    if (d.s.objs i).pc == .run then
+      let (x1, _) := runShutdownX 100000 ⟨d.s, d.ctx⟩ (.sd d.nextCall .call) d.finReq
+      { d with s := quiesce 10000 x1.base d.finReq, ctx := x1.ctxDone, nextCall := d.nextCall + 1,
+               kicked := d.kicked.filter (· != i) }
+    else if (d.s.objs i).pc == .reg then d      -- not started yet: it will do it as soon as it runs
+    else { d with kicked := d.kicked.filter (· != i) }) d1
+
+def kindOf (d : DSt) (i : Nat) : String :=
+  match d.kinds.find? (fun p => p.1 == i) with
+  | some p => p.2
+  | none => "c"
+
 def doOp (d : DSt) : List String → DSt × String
   | ["bw", n, o, k] =>
     match n.toNat?, parseOrders o with
@@ -373,27 +394,30 @@ def doOp (d : DSt) : List String → DSt × String
       let (s1, _) := runThread 10 d.s (.bw d.nextCall n o .call)
       let ans := lastAnswer s1
       let fr := if ans == "ok" && k == "x" then i :: d.finReq else d.finReq
+      let kb := (k.splitOn "@").headD "c"
       -- kind `a@c`: the handler registers worker `n + 20` with order `c` as soon as it runs
       let pr := match k.splitOn "@" with
         | ["a", c] => match c.toInt? with
           | some c => if ans == "ok" then d.progs ++ [(i, .bw (d.nextCall + 1) (n + 20) c .call)] else d.progs
           | none => d.progs
         | _ => d.progs
-      let (s2, pr2) := quiesceN s1 fr pr
-      ({ d with s := s2, finReq := fr, nextCall := d.nextCall + 2, progs := pr2 }, ans)
+      (settle { d with s := s1, finReq := fr, nextCall := d.nextCall + 2, progs := pr,
+                       kinds := if ans == "ok" then (i, kb) :: d.kinds else d.kinds }, ans)
     | _, _ => (d, "bad-op")
   | ["start"] =>
     let (s1, _) := runThread 10 d.s (.starter .call)
-    let (s2, pr2) := quiesceN s1 d.finReq d.progs
-    ({ d with s := s2, progs := pr2 }, "ok")
+    (settle { d with s := s1 }, "ok")
   | ["fin", n] =>
     match n.toNat? with
     | some n =>
       match latestInst d.s n d.s.n with
       | none => (d, "noinst")
       | some i =>
-        let fr := i :: d.finReq
-        ({ d with s := quiesce 10000 d.s fr, finReq := fr }, "ok")
+        if kindOf d i == "k" then
+          -- a `k` worker does not return when asked to: it calls `Shutdown()` and returns when it is cancelled
+          (settle { d with kicked := d.kicked ++ [i] }, "ok")
+        else
+          (settle { d with finReq := i :: d.finReq }, "ok")
     | none => (d, "bad-op")
   | ["workers"] => (d, showWorkers d.s)
   | ["isrunning"] => (d, showBool d.s.running)
@@ -405,7 +429,7 @@ def doOp (d : DSt) : List String → DSt × String
   | ["ctxflag"] => (d, showBool d.ctx ++ " " ++ showBool d.s.stopped)
   | ["sdw"] =>
     let (x1, ok) := runShutdownX 100000 ⟨d.s, d.ctx⟩ (.sd d.nextCall .call) d.finReq
-    ({ d with s := quiesce 10000 x1.base d.finReq, ctx := x1.ctxDone, nextCall := d.nextCall + 1 },
+    (settle { d with s := quiesce 10000 x1.base d.finReq, ctx := x1.ctxDone, nextCall := d.nextCall + 1 },
       if ok then "ok" else "timeout")
   | ["seenlog"] => (d, showSeen d.s)
   | ["end"] => (d, "ok")
